@@ -174,3 +174,64 @@ def unit_setup_exchange_capacity(twin=False):
     r.add("reach.both_cases", DISCHARGED if add and new else UNDECIDED, "symex", 0, "%d adding, %d creating paths" % (add, new), kind="vacuity")
     r.assumptions += ["the amount is the value of the totals entry iterated (it->second)"]
     return r
+
+
+def unit_mineral_elements(twin=False):
+    """build_pure_phases, one element of the mineral's formula per iteration: the change of the mineral's amount is charged to the mole-balance
+    unknown OF THAT ELEMENT (hydrogen / oxygen unknowns for H and O when they exist; otherwise the element's primary master species, or the
+    secondary master of its species when the primary is not in the model) with the element's stoichiometric coefficient; an element whose
+    master is not in the model charges nothing.  (The Jacobian column gets the same target with the opposite sign: C03.build_reactants...)"""
+    q = "Phreeqc::build_pure_phases"
+    fn = A.find_function(PREP, q)
+    r = U.new_unit("C03.build_pure_phases.each_element_charged_to_its_own_balance", PREP, q, fn)
+    k = loop_ordinal(fn, PREP, init_text="intj=0", cond_text="j<count_elts")
+    c = stop_on_error_msg(ctx(functional=("strcmp",)))
+    ev = A.enum_values_compiled("Phreeqc.h", ["TRUE", "FALSE", "REWRITE"]) if False else {}
+    f, ex, its, info = U.run_loop_isolated(PREP, q, k, ctx=c, inner_modes={"*": "iter"})
+    j = tm.sym("iter_j", "I"); i = tm.sym("L_i", "I")
+    nh = nm = nn = 0
+    for s in live(its, ("run", "cont")):
+        ent = tm.select(entry_arr(ex, s, ("f", "#vdata", "P")), tm.app("fld:elt_list", (THIS,), "P")) + j
+        elt = fld0(ex, s, "elt", "P", ent); coef = fld0(ex, s, "coef", "R", ent)
+        sd = [e for e in U.iter_events(s) if e.name.endswith("store_sum_deltas")]
+        me = tm.select(entry_arr(ex, s, ("f", "#vdata", "P")), tm.app("fld:delta", (THIS,), "P")) + i
+        pr = fld0(ex, s, "primary", "P", elt)
+        sec = fld0(ex, s, "secondary", "P", fld0(ex, s, "s", "P", pr))
+        FALSE_, TRUE_ = tm.num(0, "I"), tm.num(1, "I")
+        mh, mo = fld0(ex, s, "mass_hydrogen_unknown", "P"), fld0(ex, s, "mass_oxygen_unknown", "P")
+        cmpH = [e for e in U.iter_events(s) if e.name.endswith("strcmp")]
+        isH = any(p.op != "not" and "strcmp" in repr(p) and '"H"' in repr(p) for p in s.pc) and any(p.op == "not" and "mass_hydrogen_unknown" in repr(p) for p in s.pc)
+        isO = any(p.op != "not" and "strcmp" in repr(p) and '"O"' in repr(p) for p in s.pc) and any(p.op == "not" and "mass_oxygen_unknown" in repr(p) for p in s.pc)
+        if isH or isO:
+            nh += 1
+            tgt = tm.app("fld:delta", (mh if isH else mo,), "P")
+            ok = len(sd) == 1 and sd[0].args[0] is me and sd[0].args[1] is tgt
+            r.add("%s.charged_to_the_%s_balance#%d" % ("H" if isH else "O", "hydrogen" if isH else "oxygen", nh), DISCHARGED if ok else FAILED, "trace", 0, repr([e.args for e in sd])[:200])
+            if ok:
+                U.discharge_eq_real(r, "%s.with_the_element's_coefficient#%d" % ("H" if isH else "O", nh), list(s.pc), sd[0].args[2], coef)
+            continue
+        # ordinary element
+        use_sec = tm.eq(fld0(ex, s, "in", "I", pr), FALSE_)
+        for hy, sec_used in cases(list(s.pc), use_sec if not twin else tm.not_(use_sec)):
+            m = sec if sec_used else pr
+            inm = tm.and_(tm.not_(tm.eq(m, tm.NULL)), tm.eq(fld0(ex, s, "in", "I", m), TRUE_))
+            for hy2, inmodel in cases(hy, inm):
+                if inmodel:
+                    nm += 1
+                    tgt = tm.app("fld:delta", (fld0(ex, s, "unknown", "P", m),), "P")
+                    ok = len(sd) == 1 and sd[0].args[0] is me and B.z3_prove(hy2, tm.eq(sd[0].args[1], tgt))[0] == "proved"
+                    r.add("element.charged_to_its_master's_unknown(%s)#%d" % ("secondary" if sec_used else "primary", nm), DISCHARGED if ok else FAILED, "trace", 0, repr([e.args[1] for e in sd])[:200])
+                    if len(sd) == 1:
+                        U.discharge_eq_real(r, "element.with_its_coefficient#%d" % nm, hy2, sd[0].args[2], coef)
+                else:
+                    # not TRUE: either not in the model (nothing charged) or REWRITE (the search loop, not under this obligation)
+                    rew = B.z3_prove(hy2, tm.not_(tm.or_(tm.eq(m, tm.NULL), tm.eq(fld0(ex, s, "in", "I", m), FALSE_))))[0] == "proved"
+                    if not rew:
+                        for hy3, out in cases(hy2, tm.or_(tm.eq(m, tm.NULL), tm.eq(fld0(ex, s, "in", "I", m), FALSE_))):
+                            if out:
+                                nn += 1
+                                r.add("element_not_in_model.charges_nothing#%d" % nn, DISCHARGED if not sd else FAILED, "trace", 0, repr([e.args for e in sd])[:160])
+    r.add("reach.HO_master_absent", DISCHARGED if nh >= 2 and nm >= 2 and nn >= 1 else UNDECIDED, "symex", 0, "%d/%d/%d" % (nh, nm, nn), kind="vacuity")
+    r.assumptions += ["elt_list holds the elements of the mineral's (or the alternative) formula with their coefficients (get_elts_in_species, not under this contract)",
+                      "the REWRITE case (master rewritten to another mole balance) is searched by an inner loop that is not pinned here", "error_msg(..., STOP) does not return"]
+    return r
